@@ -214,7 +214,12 @@ def r_teval_shortcut(rep, f):
             if len(lets) == 1:
                 pat = lets[0]["pat"]
                 if pat.get("k") == "PBind":
-                    yield from leaves(lets[0]["init"], some, binds, idx, depth + 1)
+                    i0 = lets[0]["init"]
+                    if i0.get("k") == "Call" and (i0.get("def") or "").endswith(("Vec::<T>::new", "Vec::<T>::with_capacity", "Vec::new", "Vec::with_capacity")):
+                        # a vector built by pushes: `selection` judges what is pushed into it
+                        yield e, some, binds
+                        return
+                    yield from leaves(i0, some, binds, idx, depth + 1)
                     return
                 if pat.get("k") == "PTuple":
                     pos = [i for i, q in enumerate(pat["pats"]) if q.get("k") == "PBind" and q.get("id") == e.get("id")]
@@ -349,8 +354,21 @@ def r_zero_span(rep, f):
         rep.inconc("R-ZERO-SPAN", key, "solve_ivp has no parameters named x0 / xend")
         return
     # the shortcut: the first `if` of the body whose condition reads both ends and whose branch returns
+    def cond_of(i_):
+        # a named boolean stands for its initialiser
+        c = i_["cond"]
+        for _ in range(3):
+            while c.get("k") in ("Paren", "DropTemps"):
+                c = c["e"]
+            if c.get("k") == "Path" and c.get("res") == "local" and (c.get("ty") or "") == "bool":
+                lets = tast.find(b["body"], lambda z: z.get("k") == "Let" and z["pat"].get("k") == "PBind" and z["pat"].get("id") == c.get("id") and z.get("init") is not None)
+                if len(lets) == 1:
+                    c = lets[0]["init"]
+                    continue
+            break
+        return c
     cands = [i_ for i_ in tast.find(b["body"], lambda z: z.get("k") == "If" and z["cond"].get("k") != "LetExpr")
-             if tast.contains(i_["cond"], lambda q: q.get("k") == "Path" and q.get("id") == pn["x0"]) and tast.contains(i_["cond"], lambda q: q.get("k") == "Path" and q.get("id") == pn["xend"])
+             if tast.contains(cond_of(i_), lambda q: q.get("k") == "Path" and q.get("id") == pn["x0"]) and tast.contains(cond_of(i_), lambda q: q.get("k") == "Path" and q.get("id") == pn["xend"])
              and tast.contains(i_["then"], lambda q: q.get("k") == "Return")]
     if not cands:
         rep.violation("R-ZERO-SPAN", key, "solve_ivp has no shortcut for x0 == xend (an `if` on both end points that returns): a zero-length run reaches the steppers", b.get("sp"))
@@ -383,6 +401,6 @@ def r_zero_span(rep, f):
             bad = v
     if bad is not None:
         rep.violation("R-ZERO-SPAN", key, "the zero-interval shortcut `%s` is false for x0 == xend == %r: the run reaches the stepper, which evaluates the right-hand side, counts it, "
-                      "and ends with its step-size underflow status" % (tast.render(cands[0]["cond"])[:70], bad), cands[0].get("sp"))
+                      "and ends with its step-size underflow status" % (tast.render(cond_of(cands[0]))[:70], bad), cands[0].get("sp"))
     else:
-        rep.ok("R-ZERO-SPAN", key, "`%s` holds for x0 == xend at %d magnitudes of the end points (0 included)" % (tast.render(cands[0]["cond"])[:60], len(pts)))
+        rep.ok("R-ZERO-SPAN", key, "`%s` holds for x0 == xend at %d magnitudes of the end points (0 included)" % (tast.render(cond_of(cands[0]))[:60], len(pts)))
